@@ -56,6 +56,11 @@ func (d *PathDecoder) completionAtPos(ctx context.Context, body *hclsyntax.Body,
 
 	for _, attr := range body.Attributes {
 		if d.isPosInsideAttrExpr(attr, pos) {
+			if pos.Byte < attr.Expr.Range().Start.Byte && !isEmptyExpression(attr.Expr) {
+				// position is in front of the expression
+				// (e.g. right after '='), not inside of it
+				return lang.ZeroCandidates(), nil
+			}
 			if bodySchema.Extensions != nil && bodySchema.Extensions.SelfRefs {
 				ctx = schema.WithActiveSelfRefs(ctx)
 			}
